@@ -883,3 +883,13 @@ VARIANTS['C17'] += [
       [('dashlive/server/requesthandler/streams.py', "            models.db.session.delete(st)\n            # the old row has to be gone before a stream with the same\n            # directory is inserted\n            models.db.session.flush()\n",
         "            st.delete(commit=True)\n")], None),
 ]
+
+VARIANTS['C16'] += [
+    V('minBufferTime assigned only when a timing reference exists',
+      [('dashlive/server/requesthandler/manifest_context.py', "        self.minBufferTime = datetime.timedelta(seconds=1.5)\n        self.manifest = manifest\n",
+        "        self.manifest = manifest\n        if stream is not None and stream.timing_reference is not None:\n            self.minBufferTime = datetime.timedelta(seconds=1.5)\n")],
+      'R16.11', 'mpd.minBufferTime'),
+    V('neutral: profiles assigned in both arms',
+      [('dashlive/server/requesthandler/manifest_context.py', "        self.profiles = [primary_profiles[options.mode]]\n",
+        "        if options.mode == 'live':\n            self.profiles = [primary_profiles['live']]\n        else:\n            self.profiles = [primary_profiles[options.mode]]\n")], None),
+]
